@@ -76,12 +76,10 @@ theorem C13_tract_depth_keyword (attrs : Attrs) (kw : TractKw) (dd : Int) (h : k
 
 /-- an item whose attribute part is not a documented setting raises ValueError -/
 theorem C13_unknown_setting_rejected (c : Cfg) (line : Str) (db : Option Bool)
-    (h : isCfgAttr (match Gen.inl_config_Config__set_str_to_values_0.split line with
-                    | [a, _] => a | _ => line) = false) :
+    (h : isCfgAttr (splitAttrVal line).1 = false) :
     setStrToValues c line db = .error .valueError := by
   unfold setStrToValues
-  simp only [bind, Except.bind]
-  split <;> simp_all [throw, throwThe, MonadExceptOf.throw]
+  simp only [h, Bool.not_false, if_true]
 
 /-- decompiling prints the settings in the fixed attribute order and parsing ignores order: the canonical form of
     a configuration is order-independent -/
